@@ -329,6 +329,11 @@ func runHistories(r *ev.Run) {
 			chain.GenesisOptions{Runtime: true, RtGroupSize: 2, RtBackupSize: 1, EpochInterval: 3, NodeExpirations: []uint64{40, 40, 2}, DebondingInterval: 2},
 			chain.GenesisOptions{Runtime: true, RtGroupSize: 2, EpochInterval: 2, NodeExpirations: []uint64{3, 40, 40}, RtMaxInMessages: 2})
 	}
+	if prop == "C10" || (prop == "C01" && r.Thorough()) {
+		// long epochs and a short round timeout: rounds time out, go through discrepancy resolution
+		// and fail inside one epoch (with short epochs the epoch transition always comes first)
+		variants = append(variants, chain.GenesisOptions{Runtime: true, RtGroupSize: 2, RtBackupSize: 1, EpochInterval: 10, RtRoundTimeout: 2, NodeExpiration: 40})
+	}
 	if prop == "C05" || prop == "C01" {
 		variants = append(variants, chain.GenesisOptions{Runtime: true, RtGroupSize: 2, RtBackupSize: 1, EpochInterval: 3, NodeExpirations: []uint64{40, 3, 40}})
 	}
